@@ -131,3 +131,24 @@ func scribble[T any](s []T, poison T) {
 		s[i] = poison
 	}
 }
+
+// pureAll runs every reader once between two fingerprints; if the fingerprint
+// changed, the readers are re-run one by one to name the culprit.
+func pureAll(opts CanonOpts, obj any, rs []Reader, props []string) *Viol {
+	before := Canon(opts, obj)
+	for _, r := range rs {
+		r.Call()
+	}
+	if Canon(opts, obj) == before {
+		return nil
+	}
+	for _, r := range rs {
+		r := r
+		if v := pureCall(opts, obj, r.Name, props, func() { r.Call() }); v != nil {
+			return v
+		}
+	}
+	return viol(append(append([]string{}, props...), "C15", "C18"), "invariant", "the read-only calls together changed the container's state (no single call reproduces it): before %s", clip(before, 400))
+}
+
+func kvLoadRef[K comparable, V comparable](b *kvBox[K, V], data []byte) bool { return false }
